@@ -27,7 +27,7 @@ RULE = ("one case = a generated module program: 1-3 source signals (Python float
         "double sensitivity, print_timing under clock jumps, permuted sig_in/sig_out; distinct = distinct abstract traces "
         "(module types in execution order, nesting, slice kinds, per-cycle seed pattern); non-trivial = the DAG has fan-out or a "
         "shared/sliced signal or more than one cycle")
-PROBES = ["built_by_append", "inner_network_extended_after_nesting", "matrix_signal_dyad_sensitivity", "same_object_for_two_inputs", "signal_used_twice", "output_into_slice", "nested_depth2", "unseeded_branch_skipped",
+PROBES = ["adjoint_source_without_outputs", "auto_created_output_signal", "built_by_append", "inner_network_extended_after_nesting", "matrix_signal_dyad_sensitivity", "same_object_for_two_inputs", "signal_used_twice", "output_into_slice", "nested_depth2", "unseeded_branch_skipped",
           "second_sensitivity_without_reset", "fan_out", "index_array_input", "python_float_signal", "keep_alloc_source",
           "none_block", "order_differs_from_creation", "complex_program", "intermediate_seeded", "partial_seed_multi_output"]
 FAULT_KINDS = ["clock_jump", "set_order_permutation"]
@@ -120,6 +120,17 @@ def _define_modules():
         def _sensitivity(self, dy):
             return dy, dy
 
+    class Sink(Module):
+        """ no output signals: an adjoint source by itself (e.g. a logged objective); adds the constant c to its input """
+        def _prepare(self, c=None, as_float=False):
+            self.c, self.as_float = c, as_float
+
+        def _response(self, x):
+            return []
+
+        def _sensitivity(self):
+            return float(self.c[0]) if self.as_float else self.c.copy()
+
     class DiagMat(Module):
         """ K = diag(x): matrix-valued signal; the incoming sensitivity is an ndarray or a DyadCarrier """
         def _response(self, x):
@@ -147,7 +158,7 @@ def _define_modules():
         def _sensitivity(self, dg):
             return pym.DyadCarrier(self.u * dg, self.v)
 
-    H.update(Affine=Affine, Elt=Elt, Prod=Prod, Sum2=Sum2, DiagMat=DiagMat, AddMat=AddMat, Bilin=Bilin)
+    H.update(Affine=Affine, Elt=Elt, Prod=Prod, Sum2=Sum2, DiagMat=DiagMat, AddMat=AddMat, Bilin=Bilin, Sink=Sink)
 
 
 # ------------------------------------------------------------------------------------------------ generation
@@ -161,10 +172,12 @@ def gen(rng, idx, tier):
         sources.append(dict(shape=shape, keep_alloc=bool(rng.random() < 0.2 and shape != "float")))
     nbuf = int(rng.integers(0, 3))
     matrix_flavour = bool(rng.random() < 0.3) and not cplx      # matrix-valued signals with DyadCarrier sensitivities
+    sinks = bool(rng.random() < 0.25)                           # modules without outputs that are adjoint sources
     mods = []
     for _ in range(int(rng.integers(1, 15 if tier == "thorough" else 9))):
-        t = str(rng.choice(["affine", "affine", "affine", "elt", "prod", "sum2"] + (["diagmat", "diagmat", "addmat", "bilin", "bilin"] if matrix_flavour else [])))
-        nin = int(rng.integers(1, 4)) if t == "affine" else (1 if t in ("elt", "diagmat", "bilin") else 2)
+        t = str(rng.choice(["affine", "affine", "affine", "elt", "prod", "sum2"] + (["sink"] if sinks else []) +
+                           (["diagmat", "diagmat", "addmat", "bilin", "bilin"] if matrix_flavour else [])))
+        nin = int(rng.integers(1, 4)) if t == "affine" else (1 if t in ("elt", "diagmat", "bilin", "sink") else 2)
         nout = int(rng.integers(1, 3)) if t == "affine" else 1
         mods.append(dict(type=t, seed=int(rng.integers(1 << 30)),
                          ins=[dict(ref=int(rng.integers(0, 64)),
@@ -351,6 +364,13 @@ def build(case):
             ins = [a, b]
         if t == "elt":
             ins = ins[:1]
+        if t == "sink":
+            v = ins[0]
+            cdat = rng.uniform(-1, 1, v.size).astype(dt)
+            mod = H["Sink"](v.sig, c=cdat.reshape(np.shape(np.zeros(v.shape)) if v.shape != "float" else (1,)), as_float=(v.shape == "float"))
+            mods.append(dict(mod=mod, type=t, ins=[v], outs=[], jac=lambda xs: [], fwd=lambda xs: [], sink=cdat))
+            probe("adjoint_source_without_outputs")
+            continue
         # outputs
         outs = []
         if t == "affine":
@@ -403,7 +423,13 @@ def build(case):
             def fwd(xs, A=A, c=c):
                 return [sum((blk @ x for blk, x in zip(row, xs) if blk is not None), start=cc.copy()) for row, cc in zip(A, c)]
         elif t == "elt":
-            mod = H["Elt"](ins[0].sig, outs[0].sig, cplx=cplx)
+            if m["seed"] % 4 == 0 and "outslice" not in outs[0].kinds and outs[0].shape != "float":
+                mod = H["Elt"](ins[0].sig, cplx=cplx)              # output signal created by the Module itself
+                outs[0].sig = mod.sig_out[0]
+                bases[outs[0].base]["sig"] = mod.sig_out[0]
+                probe("auto_created_output_signal")
+            else:
+                mod = H["Elt"](ins[0].sig, outs[0].sig, cplx=cplx)
 
             def jac(xs):
                 return [[np.diag(2 * xs[0]) if cplx else np.diag(1 - np.tanh(xs[0]) ** 2)]]
@@ -671,6 +697,10 @@ def run(case):
         g_exp = np.zeros(nsrc_entries, dtype=dt)
         for ci, w in seeded.items():
             g_exp = g_exp + tan[cands[ci].base][cands[ci].idx, :].T @ w
+        for m in mods:
+            if m.get("sink") is not None:
+                v = m["ins"][0]
+                g_exp = g_exp + tan[v.base][v.idx, :].T @ m["sink"]
         ncalls = 2 if op["double"] else 1
         try:
             with contextlib.redirect_stdout(out):
@@ -790,6 +820,11 @@ def _expected_double(mods, ordered, bases, tan, seeded, nsrc_entries, off, dt, v
         has[b_] = True
     for _ in range(2):
         for m in reversed(ordered):
+            if m.get("sink") is not None:
+                v = m["ins"][0]
+                np.add.at(G[v.base], v.idx, m["sink"])
+                has[v.base] = True
+                continue
             if not any(has[o.base] for o in m["outs"]):
                 continue
             xs = [val[v.base][v.idx] for v in m["ins"]]
